@@ -421,7 +421,7 @@ def spec_single(ck, c, obj, idx, mc, call):
                 break
     # ---- returned index table
     if exp == "poly" and idx is not None and per != "ignore":
-        if per == "split":
+        if per == "split" or p is None:
             if [int(x) for x in idx] != [f for f in faces_of_row]:
                 ck.fail("index_table", c, info, detail="returned %s measured %s" % (list(idx), faces_of_row))
     # ---- data
@@ -829,8 +829,11 @@ def main(ck):
                       str(kw.get("detail"))[:200])
             return orig(clause, case, info, **kw)
         ck.fail = fail
+    import time
+    t0 = time.time()
     ck.check_props()
     ok = ck.build_driver()
+    t_build = time.time() - t0
     import warnings
     warnings.filterwarnings("ignore")
     cases = gen_cases(ck)
@@ -898,6 +901,7 @@ def main(ck):
         if c["kind"] == "hist":
             hist_diffs[str(res.get("diff"))] = hist_diffs.get(str(res.get("diff")), 0) + 1
     ck.extra.update({"case_kinds": kinds, "model_variant_matched": matched, "conversions_that_raise": raises,
+                     "seconds_build_and_proof_check (incl. waiting for the shared build lock)": round(t_build, 1),
                      "history_final_vs_fresh": hist_diffs,
                      "clauses_checked_on_impl": ["am_faces", "polygon_vertices", "polygon_face_bijection", "split_pieces",
                                                  "index_table", "data_attached", "cache_dependent", "returned_object_altered"],
